@@ -157,6 +157,141 @@ func performCall(c *callRec) (ok bool) {
 	case "Ellipse64":
 		clipper.Ellipse64(clipper.Point64{X: 1, Y: 1}, float64(c.N1)/4, float64(c.N2)/4, int(c.N3))
 		clipper.EllipseD(clipper.PointD{X: 1, Y: 1}, float64(c.N1)/4, float64(c.N2)/4, int(c.N3))
+	case "InflatePathsD.full":
+		clipper.InflatePathsD(toPathsD(a), float64(c.N1)/4, clipper.JoinType(c.N2), clipper.EndType(c.N3), clipper.WithPrecision(prec))
+	case "ClipperOffset":
+		co := clipper.NewClipperOffset(2, 0.25, c.N4&1 != 0, c.N4&2 != 0)
+		co.AddPaths(a64, clipper.JoinType(c.N2), clipper.EndType(c.N3))
+		if c.N4&8 != 0 {
+			co.AddPaths(a64, clipper.Round, clipper.Polygon)
+		}
+		d := float64(c.N1) / 4
+		if c.N4&4 != 0 {
+			var cb clipper.DeltaCallbackFunc = func(path *clipper.Path64, norms *clipper.PathD, curr, prev uint8) float64 { return d }
+			co.SetDeltaCallback(&cb)
+		}
+		var s clipper.Paths64
+		co.Execute64(d, &s)
+		if c.N4&8 != 0 {
+			co.Execute64(-d, &s)
+		}
+		co.CalcSolutionCapacity()
+	case "RectClipPathsD.full", "RectClipLinesPathsD.full", "RectClipPathD", "RectClipLinesPathD", "RectClipPath64", "RectClipLinesPath64":
+		rr := first(b)
+		rc := clipper.NewRect64(rr[0][0], rr[0][1], rr[1][0], rr[1][1])
+		rd := clipper.NewRectD(float64(rr[0][0]), float64(rr[0][1]), float64(rr[1][0]), float64(rr[1][1]))
+		switch c.Api {
+		case "RectClipPathsD.full":
+			clipper.RectClipPathsD(rd, toPathsD(a), prec)
+		case "RectClipLinesPathsD.full":
+			clipper.RectClipLinesPathsD(rd, toPathsD(a), prec)
+		case "RectClipPathD":
+			clipper.RectClipPathD(rd, pathDOf(first(a)))
+		case "RectClipLinesPathD":
+			clipper.RectClipLinesPathD(rd, pathDOf(first(a)))
+		case "RectClipPath64":
+			clipper.RectClipPath64(rc, to64(first(a)))
+		default:
+			clipper.RectClipLinesPath64(rc, to64(first(a)))
+		}
+	case "MinkowskiSumD.full":
+		clipper.MinkowskiSumD(pathDOf(first(a)), pathDOf(first(b)), c.N1 == 1, prec)
+	case "MinkowskiDiffD.full":
+		clipper.MinkowskiDiffD(pathDOf(first(a)), pathDOf(first(b)), c.N1 == 1, prec)
+	case "EngineDOC", "EngineDSF":
+		e := clipper.NewClipperD(prec)
+		if c.Api == "EngineDOC" {
+			e.AddPaths(toPathsD(a), clipper.Subject, false)
+			e.AddPaths(toPathsD(b), clipper.Clip, false)
+			e.AddPaths(toPathsD(a), clipper.Subject, true)
+			var s, o clipper.PathsD
+			ok = e.ExecuteOC(ct, fr, &s, &o)
+		} else {
+			e.AddPathsWithScaleFunc(toPathsD(a), clipper.Subject, false, clipper.ScalePathsDToPaths64)
+			e.AddPathsWithScaleFunc(toPathsD(b), clipper.Clip, false, clipper.ScalePathsDToPaths64)
+			e.AddPathsWithScaleFunc(toPathsD(a), clipper.Subject, true, clipper.ScalePathsDToPaths64)
+			var s, o clipper.PathsD
+			ok = e.ExecuteWithScaleFunc(ct, fr, &s, &o, clipper.ScalePath64ToPathD)
+		}
+	case "PolyTreeAPI64", "PolyTreeAPID":
+		var root *clipper.PolyPathBase
+		if c.Api == "PolyTreeAPI64" {
+			root = clipper.BooleanOpPolyTree64(ct, a64, clip64, fr).PolyPathBase
+		} else {
+			root = clipper.BooleanOpPolyTreeD(ct, toPathsD(a), toPathsD(b), fr, prec).PolyPathBase
+		}
+		var walk func(n *clipper.PolyPathBase)
+		walk = func(n *clipper.PolyPathBase) {
+			n.Count()
+			n.Level()
+			n.IsHole()
+			n.Polygon()
+			n.Scale()
+			for _, ch := range n.GetChildren() {
+				walk(ch)
+			}
+		}
+		walk(root)
+		_ = root.ToString()
+		root.Clear()
+		root.Count()
+		_ = root.ToString()
+		root.AddChild(to64(first(a)))
+	case "AreaD":
+		clipper.AreaD(pathDOf(first(a)))
+		clipper.AreaPathsD(toPathsD(a))
+		clipper.IsPositiveD(pathDOf(first(a)))
+	case "TrimCollinearD.full":
+		clipper.TrimCollinearD(pathDOf(first(a)), prec, c.N1 == 1)
+	case "SimplifyPathsD":
+		clipper.SimplifyPathsD(toPathsD(a), 0.5, c.N1 == 1)
+	case "PathDHelpers":
+		pd := pathDOf(first(a))
+		clipper.ScalePathD(pd, 0.5+float64(c.N1))
+		clipper.TranslatePathD(pd, 0.5, -0.5)
+		clipper.TranslatePathsD(toPathsD(a), 1, 1)
+		clipper.PathDToPath64(pd)
+		clipper.ScalePathDToPath64(pd, 10)
+		clipper.ScalePath64ToPathD(to64(first(a)), 0.1)
+		clipper.MakePath64()
+		clipper.MakePathD()
+	case "PointRectMethods":
+		rr := first(b)
+		rc := clipper.NewRect64(rr[0][0], rr[0][1], rr[1][0], rr[1][1])
+		rd := clipper.NewRectD(float64(rr[0][0]), float64(rr[0][1]), float64(rr[1][0]), float64(rr[1][1]))
+		p := clipper.Point64{X: c.N1, Y: c.N2}
+		pd := clipper.PointD{X: float64(c.N1), Y: float64(c.N2)}
+		rc.IsEmpty()
+		rc.IsInvalid()
+		rc.MidPoint()
+		rc.AsPath()
+		rc.Contains(rc)
+		rc.Intersects(clipper.NewRect64(0, 0, 1, 1))
+		rd.IsEmpty()
+		rd.IsInvalid()
+		rd.MidPoint()
+		rd.AsPath()
+		rd.Contains(rd)
+		rd.Intersects(clipper.NewRectD(0, 0, 1, 1))
+		ri, rdi := clipper.NewRect64Invalid(true), clipper.NewRectDInvalid(false)
+		ri.IsInvalid()
+		rdi.IsInvalid()
+		clipper.ScaleRect64(rc, 0.5)
+		clipper.ScaleRectD(rd, 10)
+		p.Equals(p)
+		p.NEquals(p)
+		p.Add(p)
+		p.Sub(p)
+		p.ToPointD()
+		pd.Equals(pd)
+		pd.NEquals(pd)
+		pd.Negate()
+		pd.ToPoint64()
+		clipper.NewFloatPoint64(float64(c.N1)+0.5, float64(c.N2)-0.5)
+		clipper.PointsNearEqual(pd, pd, 0.5)
+		clipper.PerpendicDistFromLineSqrD(pd, pd, pd)
+		clipper.PerpendicDistFromLineSqr64(p, p, p)
+		clipper.CrossProduct(p, p, p)
 	default:
 		fatal("unknown api in call space:", c.Api)
 	}
